@@ -274,3 +274,80 @@ def rule_D3(ctx, files=None):
                     break
     res.analysed['sine_cosine_companions'] = npairs
     return res, npairs
+
+
+_TRANSPARENT = ('ImplicitCastExpr', 'ParenExpr', 'ExprWithCleanups', 'MaterializeTemporaryExpr', 'CXXBindTemporaryExpr')
+
+
+def _shape(f, i, ids):
+    """structure of a statement with its variable references abstracted to ID (collected in order in `ids`)."""
+    n = f.nodes[i]
+    k = n['k']
+    if k in _TRANSPARENT and n.get('ch'):
+        return _shape(f, n['ch'][0], ids)
+    if k == 'DeclRefExpr' and n.get('rk') in ('param', 'local', 'var'):
+        ids.append((n.get('name'), i))
+        return 'ID'
+    if k == 'MemberExpr' and n.get('onthis'):
+        ids.append((n.get('m'), i))
+        return 'ID'
+    lab = k
+    for key in ('op', 'cv', 'm', 'name', 'val', 'v'):
+        if key in n and not isinstance(n[key], (dict, list)):
+            lab += ':%s=%s' % (key, n[key])
+    ce = n.get('callee')
+    if ce:
+        lab += ':' + str(ce.get('q'))
+    return '(' + lab + ' ' + ' '.join(_shape(f, c, ids) for c in n.get('ch', [])) + ')'
+
+
+def rule_CP1(ctx, files=None):
+    res = RuleResult('CP1', 'consistent renaming between sibling clones: when two statements of one block have the same '
+                            'structure and differ only in the variables they name (the easting clause and the northing '
+                            'clause), a variable that is renamed at two or more positions is renamed at every position (a '
+                            'position left unrenamed is the copy/paste slip)')
+    npairs = 0
+    for f in sorted(ctx.lib_fns(), key=lambda x: (x.file, x.line)):
+        if not _in(f, files) or f.d.get('body', -1) < 0:
+            continue
+        for i, n in f.all_nodes():
+            groups = []
+            if n['k'] == 'CompoundStmt':
+                groups.append(list(n['ch']))
+            elif n['k'] == 'IfStmt' and n.get('else', -1) >= 0 and n.get('then', -1) >= 0:
+                groups.append([n['then'], n['else']])
+            for ch in groups:
+                sh = []
+                for c in ch:
+                    ids = []
+                    sh.append((_shape(f, c, ids), ids))
+                for a in range(len(ch)):
+                    for b in range(a + 1, len(ch)):
+                        (sa, ia), (sb, ib) = sh[a], sh[b]
+                        if sa != sb or len(ia) < 3:
+                            continue
+                        na = [x[0] for x in ia]
+                        nb = [x[0] for x in ib]
+                        if na == nb:
+                            continue
+                        npairs += 1
+                        cnt = {}
+                        for x, y in zip(na, nb):
+                            cnt[(x, y)] = cnt.get((x, y), 0) + 1
+                        bad = None
+                        for (x, y), c in cnt.items():
+                            if x == y or c < 2:
+                                continue
+                            for z in (x, y):
+                                if 0 < cnt.get((z, z), 0) < c:
+                                    pos = [k for k, (p, q) in enumerate(zip(na, nb)) if p == z and q == z]
+                                    bad = (x, y, z, c, (ia if z == y else ib)[pos[0]][1])
+                        res.ob(bad is None, {'fn': f.q, 'clones': [f.loc(ch[a]), f.loc(ch[b])], 'renaming': sorted(
+                            '%s->%s x%d' % (x, y, c) for (x, y), c in cnt.items() if x != y)} if (bad or npairs % 12 == 1) else None)
+                        if bad:
+                            x, y, z, c, at = bad
+                            res.fail(f.q, '%s/%s' % (x, y), f.loc(at),
+                                     'the statements at %s and %s are clones in which %s is renamed to %s at %d positions, but %s '
+                                     'appears unrenamed in both at %s' % (f.loc(ch[a]), f.loc(ch[b]), x, y, c, z, f.loc(at)))
+    res.analysed.update({'clone_pairs': npairs})
+    return res, npairs
